@@ -96,7 +96,7 @@ type stmt struct {
 func (s *stmt) Close() error  { return nil }
 func (s *stmt) NumInput() int { return -1 }
 
-var insertRe = regexp.MustCompile(`(?s)^INSERT INTO (.*?) \((.*)\) VALUES \((.*)\);$`)
+var insertRe = regexp.MustCompile(`(?is)^\s*INSERT\s+INTO\s+(.*?)\s*\((.*)\)\s*VALUES\s*\((.*)\)\s*;?\s*$`)
 
 // SplitIdent removes the escape character around an identifier.
 func SplitIdent(s string, esc rune) string {
@@ -123,7 +123,11 @@ func (s *stmt) Exec(args []driver.Value) (driver.Result, error) {
 	if m := insertRe.FindStringSubmatch(s.query); m != nil {
 		t, ok := s.db.Tables[m[1]]
 		if !ok {
-			t = &Table{Cols: strings.Split(m[2], ",")}
+			cols := strings.Split(m[2], ",")
+			for i := range cols {
+				cols[i] = strings.TrimSpace(cols[i])
+			}
+			t = &Table{Cols: cols}
 			s.db.Tables[m[1]] = t
 		}
 		t.Rows = append(t.Rows, cp)
